@@ -161,6 +161,10 @@ def run_case(ctx, case):
       # no sample left once the default value is removed (only zero-weight clip sentinels remain): outside the stated domain
       ctx.note("empty-after-default-removal")
       return False, None
+    if w is not None and float(np.asarray(w)[np.asarray(v) != dv].sum() if dv is not None else np.asarray(w).sum()) <= 0.0:
+      # every remaining sample is masked (the only positive weights sat on default-valued examples): all-zero weights, excluded
+      ctx.note("all-zero-weights-after-default-removal")
+      return False, None
     try:
       kp = pl.compute_keypoints(v, k, keypoints=mode, clip_min=cmin, clip_max=cmax, default_value=dv, weights=w, weight_reduction=red)
     except Exception as e:
@@ -211,6 +215,8 @@ def run_case(ctx, case):
       v, k, mode, cmin, cmax, dv = expect[fc.name]
       distinct, vv_ = _distinct(v, cmin, cmax, dv)
       if len(distinct) == 0 or len(vv_) == 0:
+        continue
+      if w is not None and float(np.asarray(w)[np.asarray(v) != dv].sum() if dv is not None else np.asarray(w).sum()) <= 0.0:
         continue
       judge(ctx, "feature-helpers/valid", fc.pwl_calibration_input_keypoints, distinct, k, mode,
             {"feature": fc.name, "num_keypoints": k, "mode": mode, "clip": [cmin, cmax], "default": dv})
